@@ -11,6 +11,7 @@ class C01(Prop):
     id = "C01"
     trace_module = "TraceC01"
     trace_cfg = "TraceC01.cfg"
+    suite_family = ('c01', ('mul',))
     backends = ("py", "torch")
     assumptions = [
         "letters/phase projection bits<->IXYZ (4-entry table in harness/backend.py)",
@@ -69,6 +70,9 @@ class C01(Prop):
                 yield {"k": "table", "as": [list(p) for p in allp], "bs": [list(p) for p in sub]}
         for c in self.chains:
             yield c
+        # live operands: the same Pauli object is multiplied, changed in place (rotate_by), and multiplied again
+        for t, c in enumerate(self.chains[:60]):
+            yield {"k": "live", "start": c["start"], "steps": c["steps"][:10]}
 
     def execute(self, scn, be):
         k = scn["k"]
@@ -78,6 +82,8 @@ class C01(Prop):
             return self._table(scn, be)
         if k == "chain":
             return [self._chain(scn, be)]
+        if k == "live":
+            return self._live(scn, be)
         raise ValueError(k)
 
     def _mul(self, scn, be):
@@ -161,4 +167,28 @@ class C01(Prop):
         return rec
 
 
+def _live(self, scn, be):
+    out = []
+    try:
+        P = be.pauli(scn["steps"][0]["q"])
+        for j, st in enumerate(scn["steps"]):
+            q = st["q"]
+            herm = q[:-1] + [q[-1] - q[-1] % 2]
+            if j % 3 == 2 and any(herm[:-1]):
+                P.rotate_by(be.pauli(herm))        # in-place change of the live operand (judged under C02)
+                continue
+            a = be.p_pauli(P)
+            rec = {"op": "batch", "fn": "live:Pauli@poly" if j % 2 else "live:poly@Pauli", "as": [a] if j % 2 else [q, q], "bs": [q, q] if j % 2 else [a]}
+            Q = be.poly([q, q], [1, 1])
+            r = (P @ Q) if j % 2 else (Q @ P)
+            rec["rets"] = be.p_list(r)
+            rec["csok"] = all(complex(c) == 1 for c in be.tolist(r.cs))
+            out.append(rec)
+            out.append({"op": "mul", "a": a, "b": q, "ret": be.p_pauli(P @ be.pauli(q))})
+    except Exception as e:
+        out.append({"op": "batch", "fn": "live", "exc": _exc(e)})
+    return out
+
+
+C01._live = _live
 PROP = C01
